@@ -49,6 +49,12 @@ impl LinkedDomainService {
       if domain.scheme() != "https" {
         return Err(DomainLinkageError("domain does not include `https` scheme".into()));
       }
+      // The same rule `check_structure` applies: otherwise the constructed service is rejected by `TryFrom<Service>`.
+      if !url_only_includes_origin(domain) {
+        return Err(DomainLinkageError(
+          "domain must not contain any path, query or fragment".into(),
+        ));
+      }
     }
     let builder: ServiceBuilder = Service::builder(properties)
       .id(did_url)
